@@ -7,7 +7,7 @@ D=$(realpath "$1"); K=$(basename $D); W=/tmp/confirm.$$
 git -C /repo worktree add --detach $W HEAD -q || exit 2
 trap 'git -C /repo worktree remove --force $W' EXIT
 cd $W
-mkdir -p deliver && cp -r $D deliver/$K
+mkdir -p deliver _build && cp -r $D deliver/$K
 demo() {
   if [ -f deliver/$K/run.sh ]; then sh deliver/$K/run.sh
   elif [ -f deliver/$K/demo.sh ]; then sh deliver/$K/demo.sh
